@@ -243,7 +243,7 @@ class C19(core.Check):
     partial_note = (
         "the theorems on cartesian stacks are for all sizes, incl. where the corner points of every Grid face and every extruded tier "
         "are (over Q); revolved tiers have a location theorem (T_C19_revolved_geometry) on a model that is not driven through the driver, revolved / twisted tiers are located by the harness. Faces, grid, core, shell of the round sketch classes are "
-        "computed by the model from the ast-regenerated source text; for OneCoreDisk / QuarterDisk / HalfDisk / FourCoreDisk (and, theorem only, WrappedDisk) the rim is "
+        "computed by the model from the ast-regenerated source text; for OneCoreDisk / QuarterDisk / HalfDisk / FourCoreDisk (and, theorem only, WrappedDisk and Oval) the rim is "
         "proved on the exact positions for every placement, for the other round sketches and the shapes it is still computed geometrically "
         "on *probe* instances (`decide` on those tables; other placements: correspondence + geometric oracle); the point renumbering of "
         "MappedSketch.merge is modelled and proved (T_C19_merge) but not compared with the implementation; negative indices / axis outside 0..2 are C20's business"
